@@ -1369,6 +1369,9 @@ func layCheckC03Msg(line, specStr, msgStr string, rep *Reporter) {
 					layHexOrNone(refOfCanon, definedCanon), layHexOrNone(again, err2 == nil)))
 		}
 	})
+	if defined {
+		layCheckC03History(line, st, mt, rep)
+	}
 }
 
 func layCheckC03Field(line, specStr, valStr string, rep *Reporter) {
